@@ -1501,6 +1501,52 @@ fn step<P: HP>(st: &mut St<P>, line: &str) -> String {
                 _ => "bad-op".into(),
             }
         }
+        ["par_mixed", r, d, rest @ ..] => {
+            // one thread reads the left side through a read-only re-borrow while another writes the right side
+            let Some(steps) = parse_steps::<P>(rest) else { return "bad-op".into() };
+            let Some(d) = parse_i(d) else { return "bad-op".into() };
+            macro_rules! go {
+                ($m:expr) => {
+                    match nav_mut($m.view_mut(), &steps) {
+                        Err(e) => e,
+                        Ok(v) => {
+                            let (l, r) = v.split();
+                            let mut seen = 0usize;
+                            std::thread::scope(|s| {
+                                let h = l.as_ref().map(|l| {
+                                    s.spawn(move || {
+                                        let mut n = 0usize;
+                                        for _ in 0..3 {
+                                            n = l.view().iter().count();
+                                            std::thread::yield_now();
+                                        }
+                                        n
+                                    })
+                                });
+                                if let Some(mut r) = r {
+                                    s.spawn(move || {
+                                        for (_, x) in r.iter_mut() {
+                                            std::thread::yield_now();
+                                            x.bump(d)
+                                        }
+                                    });
+                                }
+                                if let Some(h) = h {
+                                    seen = h.join().unwrap_or(usize::MAX);
+                                }
+                            });
+                            format!("ok;left={}", seen)
+                        }
+                    }
+                };
+            }
+            match *r {
+                "A" => go!(&mut st.a),
+                "B" => go!(&mut st.b),
+                "S" => go!(&mut st.s),
+                _ => "bad-op".into(),
+            }
+        }
         ["par_churn", r, n, rest @ ..] => {
             // two threads insert / remove the value at the root of their side of a split view, `n` times each
             // (the entry counter is shared between the sides); every side ends as it started
